@@ -34,6 +34,7 @@ Step ==
       [] e.ev = "Shift"    -> Shift(e.n, e.lo, e.capEq, e.same)
       [] e.ev = "Reset"    -> Reset
       [] e.ev = "Restore"  -> Restore
+      [] e.ev = "Scribble" -> restored /\ UNCHANGED cvars     \* the caller writes to its own memory after Restore (harness-only event)
       [] e.ev = "Mem"      -> Mem(ToSet(e.diff))
       [] OTHER             -> FALSE
 
